@@ -7,5 +7,7 @@ cd "$(dirname "$0")/.."
 for i in 0 1 2 3 4 5 6 7; do mkdir -p harness/gc/gc$i/src/gen; [ -f harness/gc/gc$i/src/gen/root.rs ] || echo "fn main() {}" > harness/gc/gc$i/src/gen/root.rs; done
 ( cd harness && cargo build --offline )
 ./harness/target/debug/zv extract /repo lean/ZeepVerif/Generated
-( cd lean && lake build ZeepVerif zvdrv zvspec )
+( cd lean && lake build zvdrv zvspec ZeepVerif.AuditLib )
+# theorem modules: prebuilt here so the checks start warm; a failure here is reported by the check of the property concerned, not by setup
+( cd lean && lake build ZeepVerif ) || echo "setup: some theorem modules do not build (the per-property checks report which)"
 echo "setup ok"
